@@ -21,6 +21,7 @@ class Pair:
         self.sim = Sim(seed)
         self.conf = conf
         self.history = []          # every datagram ever sent (src, dst, bytes)
+        self.delivered = []        # every datagram delivered by a 'deliver' action (src, dst, bytes)
         self.steps = []            # (action, sent datagrams)
         self.hooks = []            # callables(pair, action, sent) run after every action
         self.A = self.B = None
@@ -74,6 +75,7 @@ class Pair:
                     src, dst, data = sim.net.pop(i)
                     ep = sim.owner_of(dst)
                     if ep is not None:
+                        self.delivered.append((src, dst, data))
                         sent = ep.datagram(dst, src, data)
         elif kind == 'replay':
             if self.history:
